@@ -6,7 +6,7 @@
   `(idx, None | Some 0 | Some next)`, `contain_hashes`).
 
   `WfMap m C` says that following `next` from the table entry of hash `h` visits exactly the rows
-  `C h` (`Linked`) — `chain_lists_all_equal_hash_rows` establishes it for every map built by
+  `C h` (`Linked`) — `chain_lists_all_equal_hash_rows` proves it for every map built by
   `update_from_iter`, with `C h` = the rows inserted with hash `h`, latest first.  On such maps:
   `lookup_spec` (full lookup = every chain row of every probe, in order), `paged_concat_eq_full`
   (the concatenation of the pages equals the full lookup of the valid probes, for every limit > 0,
@@ -15,6 +15,7 @@
 -/
 import DfModel.Sm.Jhm
 import DfModel.Proofs.C14
+import DfModel.Proofs.C14b
 namespace DfModel.Props.C14
 open DfModel.Sm.Jhm DfModel.Proofs.C14
 
@@ -74,17 +75,50 @@ theorem contain_iff_lookup_nonempty (m : Map) (C : Nat → List Nat) (hw : WfMap
   | none => simp [hw.miss h hf]
   | some s => simp [(hw.hit h s hf).1]
 
-/-- the rows inserted with hash `h`, latest insertion first -/
-def chainOf (ins : List (Nat × Nat)) (h : Nat) : List Nat :=
-  ((ins.filter (fun rh => rh.2 == h)).map (·.1)).reverse
+/-- **chains**: a map built by `update_from_iter` over `ins` (distinct rows, all below the capacity,
+    in whatever order the caller's iterator yields them, in one or several calls) never panics, and
+    links, for every hash, exactly the rows inserted with that hash, each once, latest insertion first
+    (`chainOf ins h`); hashes that were not inserted have no table entry. -/
+theorem chain_lists_all_equal_hash_rows (cap : Nat) (ins : List (Nat × Nat))
+    (hnd : (ins.map (·.1)).Nodup) (hlt : ∀ rh ∈ ins, rh.1 < cap) :
+    ∃ m, updateFromIter (withCapacity cap) 0 ins = some m ∧ WfMap m (chainOf ins) ∧ m.next.length = cap := by
+  obtain ⟨m, h1, hb⟩ := binv_update (cap := cap) ins (withCapacity cap) [] (binv_init cap) (by simpa using hnd) hlt
+  simp only [List.nil_append] at hb
+  refine ⟨m, h1, ⟨hb.miss, ?_⟩, hb.len⟩
+  intro h s hs
+  obtain ⟨a, b⟩ := hb.hit h s hs
+  refine ⟨a, b, ?_⟩
+  have hsub : chainOf ins h ⊆ List.range cap := by
+    intro x hx
+    obtain ⟨rh, hrh, rfl⟩ := List.mem_map.mp (mem_chainOf hx)
+    exact List.mem_range.mpr (hlt rh hrh)
+  have := List.Nodup.length_le_of_subset (chainOf_nodup hnd h) hsub
+  rw [hb.len]; simpa using this
 
-/-- **chains** (full statement): a map built by `update_from_iter` over `ins` (distinct rows, all
-    below the capacity) links, for every hash, exactly the rows inserted with that hash, each once,
-    latest first; and no index panic occurs while building. -/
-def chain_lists_all_equal_hash_rows_statement : Prop :=
-  ∀ (cap : Nat) (ins : List (Nat × Nat)),
-    (ins.map (·.1)).Nodup → (∀ rh ∈ ins, rh.1 < cap) →
-    ∃ m, updateFromIter (withCapacity cap) 0 ins = some m ∧ WfMap m (chainOf ins)
+/-- building in several `update_from_iter` calls (batches) is building with the concatenation -/
+theorem updateFromIter_append (m : Map) (d : Nat) (a b : List (Nat × Nat)) :
+    updateFromIter m d (a ++ b) = (updateFromIter m d a).bind (fun m' => updateFromIter m' d b) := by
+  induction a generalizing m with
+  | nil => rfl
+  | cons rh rest ih =>
+    obtain ⟨row, h⟩ := rh
+    simp only [List.cons_append, updateFromIter]
+    cases Sm.Jhm.insert m row h d with
+    | none => rfl
+    | some m' => exact ih m'
+
+/-- **end to end** (chained path): for a map built from any insertion sequence with duplicates, the
+    pages of any size concatenate to: for every valid probe, every build row with an equal hash,
+    each once, latest insertion first. -/
+theorem built_paged_concat_eq_full (cap : Nat) (ins : List (Nat × Nat))
+    (hnd : (ins.map (·.1)).Nodup) (hlt : ∀ rh ∈ ins, rh.1 < cap)
+    (hashes : List Nat) (valid : List Bool) (limit : Nat) (hlim : 0 < limit) :
+    ∃ m, updateFromIter (withCapacity cap) 0 ins = some m ∧
+      (m.first.length ≠ m.next.length →
+        ∃ ps, pages m hashes valid limit ((matchesOf (chainOf ins) (probeRows hashes valid)).length + 1) (0, none) = some ps ∧
+          ps.flatten = matchesOf (chainOf ins) (probeRows hashes valid)) := by
+  obtain ⟨m, h1, hw, _⟩ := chain_lists_all_equal_hash_rows cap ins hnd hlt
+  exact ⟨m, h1, fun hslow => paged_concat_eq_full m _ hw hslow hashes valid limit hlim⟩
 
 /-! ### tests / non-vacuity (concrete instances; `decide`) -/
 
